@@ -171,7 +171,9 @@ def body_factory(tier, seed):
                 # a data type named by the annotation refused the keys of a schema-valid value (it was left a plain dict): its
                 # fields do not match the schema there.  Known and not a violation: IdTokenInfoType.language_1/2 (DESIGN 10.4)
                 for (dt, keys, msg) in N.UNBUILDABLE:
-                    if "language1" in keys or "language2" in keys:
+                    if "language1" in keys or "language2" in keys or "custom_data" in msg:
+                        # known and outside the property: the 2.0.1 data types have no custom_data field (a nested customData
+                        # can only be given as a plain dict -- nothing is altered on the way), and language_1/2
                         continue
                     rep.violation("C06:datatype-refuses:%s:%s:%s" % (version, action, dt),
                                   "the data type %s cannot be built from the keys of a schema-valid %s value: %s" % (dt, action, msg),
